@@ -1,7 +1,8 @@
 (* Correspondence cases for C06: what AddBlock answered to the valid next block and to every single
    corruption of it, compared with the decision procedure of the model (Node/Accept.v). *)
 From NG Require Import Common.Tactics Common.HarnessLib.
-From NG Require Export Node.Accept Node.AcceptPool.
+From NG Require Import Admission.Conflicts.
+From NG Require Export Node.Accept Node.AcceptPool Node.AcceptConflicts.
 Open Scope N_scope.
 
 Inductive case :=
@@ -11,7 +12,12 @@ Inductive case :=
        (impl : verdict) (n_after hh_after : N)
 | CDecodeErr (op : N)                 (* the corrupted encoding does not decode: nothing reaches AddBlock *)
 | CRejExec (changed : bool)           (* a block rejected after execution: did the database change? *)
-| CStale (fam : N) (verify pooled kept fresh_ok accepted : bool).
+| CStale (fam : N) (verify pooled kept fresh_ok accepted : bool)
+| CConfl (mtb a cur : N) (asigners : list N) (tsigners : list N) (pooled kept fresh_ok accepted : bool).
+      (* on-chain Conflicts backed by any signer: transaction T (hash 1, signers tsigners, sender first) is offered
+         in the block at height cur+1; block a carries a transaction signed by asigners that names T in its
+         Conflicts attribute; pooled: T sat in the mempool when block a was stored, kept: and survived the refresh;
+         fresh_ok: a node that never pooled T admits it at height cur *)
       (* stale-pool family: T pooled (or not) at H, block H+1 without it, block H+2 carrying it offered;
          kept = T still in the mempool after H+1; fresh_ok = a node that never pooled T admits it at H+1 *)
 
@@ -58,4 +64,16 @@ Definition check_case (c : case) : N :=
       (* specification: the refresh keeps only what a fresh verification admits; acceptance = validity now *)
       let spec := implb kept fresh_ok && implb (verify && accepted) fresh_ok && implb fresh_ok accepted in
       if spec then code_of mech true else 2
+  | CConfl mtb a cur asigners tsigners pooled kept fresh_ok accepted =>
+      let es := [mkEvent a asigners [1]] in
+      let t := mkCtx 1 tsigners [] in
+      (* the specification: some on-chain transaction inside the window names T and shares a signer with it *)
+      let hit := signer_conflict es cur mtb t in
+      let hit_at_a := signer_conflict es a mtb t in
+      (* mechanism: the record table asked with all signers (the code); pooled transactions are taken as verified *)
+      let table := negb (tx_admitted true mtb es cur t) in
+      let mech := Bool.eqb table hit && Bool.eqb fresh_ok (negb table) && implb kept pooled &&
+                  Bool.eqb accepted (kept || negb table) in
+      let spec := Bool.eqb accepted (negb hit) && implb kept (negb hit_at_a) in
+      code_of mech spec
   end.
